@@ -126,8 +126,9 @@ def run(ctx):
     with open(badp, "w") as f:
         json.dump(pt, f)
     crow = rt.drive(ctx, binary, "TestVerifC34Table", os.path.join(outdir, "canary.ndjson"), env={"VERIF_TABLES": badp})
-    if [r["key"] for r in crow if r.get("kind") == "mismatch"] != [vkey]:
-        raise InfraError("binding canary: corrupted table entry %s not reported (exactly) by the driver" % vkey)
+    canary_trouble = []      # fatal (exit 2) only when the run found no violation at all, see the end
+    if vkey not in [r["key"] for r in crow if r.get("kind") == "mismatch"]:
+        canary_trouble.append("corrupted table entry %s not among the differences reported by the driver" % vkey)
 
     # ---- snapstate.resolveChannel (overlay, real model assertions) against the `rc` part of the pinned table
     with open(tables[0]) as f:
@@ -203,7 +204,7 @@ def run(ctx):
         checked += v["checked"]
         for b in v["bad"]:
             if b["case"] == 0:
-                canary_seen = b["fns"] == ["parse"]
+                canary_seen = "parse" in b["fns"]
                 continue
             o = obs[b["case"]]
             rand_bad += 1
@@ -213,7 +214,7 @@ def run(ctx):
                 desc="real snap/channel result differs from Channel.tla on %s (random case %d, seed %d)" % (b["fns"], b["case"], ctx.seed),
                 replay=o))
     if not canary_seen:
-        raise InfraError("binding canary: corrupted observation (case 0, field parse) was not rejected by TraceChannel")
+        canary_trouble.append("corrupted observation (case 0, field parse) was not rejected by TraceChannel")
     if checked - 1 != nobs or nobs != nrand:
         raise InfraError("I->T: %d observations recorded, %d written, %d validated" % (nrand, nobs, checked - 1))
     ctx.log("I->T: %d random observations validated by TLC, %d differences" % (nobs, rand_bad))
@@ -231,6 +232,9 @@ def run(ctx):
         c = v.key.split(":")[0]
         by_class[c] = by_class.get(c, 0) + 1
     ctx.log("violations by class: %s" % (by_class or "none"))
+
+    if canary_trouble and not uniq:
+        raise InfraError("binding canary: " + "; ".join(canary_trouble))
 
     samples = []
     for o in list(obs.values())[:3]:
@@ -254,7 +258,8 @@ def run(ctx):
         "tlc_constants": {"Comps": COMPS, "MaxComps": maxcomps, "requests<=": 3, "pinned<=": 2},
         "tlc_table_runs": len(tjobs),
         "violations_by_class": by_class,
-        "binding_canaries": "corrupted table entry and corrupted observation both rejected",
+        "binding_canaries": ("corrupted table entry and corrupted observation both rejected" if not canary_trouble
+                             else "TROUBLE (run has violations): " + "; ".join(canary_trouble)),
     }
     return Result(level="exploration", coverage=cov,
                   assumptions=[
